@@ -1,11 +1,12 @@
 /-!
 # C13 — model of the data containers (Photon, Pixel, Signal, Image, Phase)
 
-Mirrors, as the code is after the two proposed repairs (`proposed_fixes/C13-*.diff`):
+Mirrors, as the code is after the three proposed repairs (`proposed_fixes/C13-*.diff`):
 
 * `ArrayBase._validate`, the `array` getter / setter, `update`, `empty`, `__iadd__` / `__add__`,
   `shape`, `dtype`, `__eq__`                                   (pyxel/data_structure/array.py)
 * `Pixel.empty` (all-zero float64 array) and `Pixel.update(None)` (really empty)   (pixel.py)
+* the bucket setters of `Detector` (`detector.pixel = other` …, `detector.photon = other`)   (detectors/detector.py)
 * `Photon.array` / `array_3d` getters and setters (check order, clipping of negatives, copy),
   `Photon.__iadd__` / `__add__`, `shape`, `dtype`, `empty`, `__eq__`      (photon.py)
 
@@ -127,6 +128,7 @@ inductive Op
   | set3 (v : Operand)            -- `c.array_3d = v`
   | update (v : Option Operand)   -- `c.update(v)`
   | iadd (v : Operand)            -- `c += v`  and  `c + v` (same body in the code)
+  | adopt (v : Option Operand)    -- `detector.<bucket> = other` where the container `other` holds `v` (or is empty)
   | empty                         -- `c.empty()`
   | read | read3 | readDtype | readShape
 deriving DecidableEq, Repr
@@ -161,7 +163,10 @@ def Cfg.inTl (c : Cfg) (d : DType) : Bool := (c.tl c.kind).contains d
 def asArray : Operand → Operand
   | .nd _ s d h i => .nd true s d h i
   | .xr _ _ s d h i => .nd true s d h i
-  | .pyint _ i => .nd true [] .int64 false i
+  | .pyint v i =>
+    -- numpy's choice for a Python int: int64, uint64 beyond that, else an object array
+    .nd true [] (if -(2 ^ 63) ≤ v ∧ v < 2 ^ 63 then .int64 else if 0 ≤ v ∧ v < 2 ^ 64 then .uint64 else .other)
+      (decide (v < 0)) i
 
 /-- `ArrayBase._validate` + store (no copy, no clipping) -/
 def validateBase (c : Cfg) : Operand → Except Err (Arr Content)
@@ -288,6 +293,26 @@ def step (c : Cfg) (s : State) : Op → State × Outcome
           else if !c.inTl a.dtype then (some (bumped a v), .error .typeError)
           else if a.shape != [c.rows, c.cols] then (some (bumped a v), .error .valueError)
           else (some (bumped a v), .ok .unit)
+  | .adopt v =>
+    -- the bucket setters of `Detector` (detectors/detector.py)
+    match c.kind with
+    | .photon =>
+      -- REPAIRED (C13-detector-photon-setter): through the validating setters of the bucket
+      match v with
+      | none => (none, .ok .unit)
+      | some v => match (if isXr v then validatePhoton3 c v else validatePhoton2 c v) with
+        | .ok a => (some a, .ok .unit)
+        | .error e => (s, .error e)
+    | .phase => (s, .error .attributeError)      -- MKID.phase has no setter
+    | _ =>
+      -- `self.<bucket>.array = obj.array`
+      match v with
+      | none => (s, .error .valueError)          -- reading the empty source raises
+      | some v =>
+        if isXr v then (s, .error .typeError)    -- `.array` of a 3-D photon source raises
+        else match validateBase c v with
+          | .ok a => (some a, .ok .unit)
+          | .error e => (s, .error e)
   | .empty =>
     match c.kind with
     | .pixel => (some ⟨false, [c.rows, c.cols], .float64, .zeros⟩, .ok .unit)
@@ -343,7 +368,7 @@ def invB {γ : Type} (k : Kind) (rows cols : Nat) : Option (Arr γ) → Bool
        (k == .photon && a.is3d && a.shape.length == 3 && a.shape.drop 1 == [rows, cols]))
 
 def isAssign : Op → Bool
-  | .set _ | .set3 _ | .update _ => true
+  | .set _ | .set3 _ | .update _ | .adopt _ => true
   | _ => false
 
 /-! ## equality of two containers (`__eq__`), values abstracted to a token type `γ` -/
